@@ -7,7 +7,9 @@ Pipeline
           vs model `topo`: exhaustive small digraphs in every insertion order + random graphs up to 8 nodes;
        b. real `ActionLink.reorder` vs model `reorder` on key/component lists with prefix-related names;
        c. real `ActionLink.instantiation_order(parser)` and the `reorder` call made by `instantiate_classes`
-          on real parsers (the end-to-end scenarios) vs model `inst_order` / `components`.
+          on real parsers (the end-to-end scenarios) vs model `inst_order` / `components`; plus, on stub parsers,
+          `instantiation_order` on every subset of target keys spread over up to four nesting levels (shared
+          prefixes) in every declaration order.
   3. property oracle on the real code, independent of the model:
        i.   every graph: the returned order is a valid topological order (own check) or the graph really has a
             cycle through the reported edge (own DFS); real `reorder` == own stable sort by first matching key;
@@ -67,17 +69,18 @@ def real_topo(edges):
     g = DirectedGraph()
     for s, t in edges:
         g.add_edge(s, t)
-    nodes = list(g.nodes)
+    # snapshot before sorting: topological_sort reads edges_dict[source], which adds empty entries to the defaultdict
+    res = {"nodes": list(g.nodes), "edges": [[k, list(v)] for k, v in g.edges_dict.items()]}
     try:
         order = g.get_topological_order()
     except ValueError as ex:
         m = CYCLE_RE.search(str(ex))
         if not m:
-            return {"nodes": nodes, "other": "ValueError:" + str(ex)[:80]}
-        return {"nodes": nodes, "cycle": [m.group(1), m.group(2)]}
+            return dict(res, other="ValueError:" + str(ex)[:80])
+        return dict(res, cycle=[m.group(1), m.group(2)])
     except Exception as ex:  # noqa: BLE001 - the error class is the observation
-        return {"nodes": nodes, "other": type(ex).__name__}
-    return {"nodes": nodes, "ok": list(order)}
+        return dict(res, other=type(ex).__name__)
+    return dict(res, ok=list(order))
 
 
 def has_path(adj, src, dst):
@@ -97,7 +100,7 @@ def has_path(adj, src, dst):
 def kahn_acyclic(nodes, edges):
     indeg = {n: 0 for n in nodes}
     adj = {n: set() for n in nodes}
-    for s, t in set(edges):
+    for s, t in {(a, b) for a, b in edges}:
         if t not in adj[s]:
             adj[s].add(t)
             indeg[t] += 1
@@ -447,17 +450,21 @@ def parse_args_for(sc):
 
 
 class Recorder:
-    """records the arguments and result of the ActionLink.reorder call made with the components (first call)"""
+    """records (a) arguments and result of the ActionLink.reorder calls (the first one is the component call) and
+    (b) after every apply_instantiation_links(parser, cfg, target=dest) the set of links marked as applied"""
 
     def __init__(self):
         self.calls = []
+        self.applied = []
 
     def __enter__(self):
         from jsonargparse._link_arguments import ActionLink
 
         self.cls = ActionLink
         self.orig = ActionLink.__dict__["reorder"]
+        self.orig_apply = ActionLink.__dict__["apply_instantiation_links"]
         orig_fn = ActionLink.reorder
+        orig_apply_fn = ActionLink.apply_instantiation_links
         rec = self
 
         def wrapper(order, components):
@@ -468,11 +475,37 @@ class Recorder:
                 pass
             return res
 
+        def apply_wrapper(parser, cfg, target=None, order=None):
+            res = orig_apply_fn(parser, cfg, target=target, order=order)
+            try:
+                key = "__applied_instantiation_links__"
+                if target is not None and key in cfg:
+                    rec.applied.append((parser, target, [id(a) for a in cfg[key]]))
+            except Exception:  # noqa: BLE001
+                pass
+            return res
+
         ActionLink.reorder = staticmethod(wrapper)
+        ActionLink.apply_instantiation_links = staticmethod(apply_wrapper)
         return self
 
     def __exit__(self, *a):
         setattr(self.cls, "reorder", self.orig)
+        setattr(self.cls, "apply_instantiation_links", self.orig_apply)
+
+    def schedule(self, parser):
+        """[[component dest, [indices of the links newly marked applied at it]], ...] for the top-level parser"""
+        from jsonargparse._link_arguments import get_link_actions
+
+        index = {id(a): i for i, a in enumerate(get_link_actions(parser, "instantiate"))}
+        out, prev = [], set()
+        for p, target, ids in self.applied:
+            if p is not parser:
+                continue
+            cur = set(ids)
+            out.append([target, sorted(index.get(i, -1) for i in cur - prev)])
+            prev = cur
+        return out
 
 
 def run_acyclic(sc):
@@ -493,6 +526,7 @@ def run_acyclic(sc):
         with Recorder() as rec:
             parser.instantiate_classes(cfg)
         obs["reorder_calls"] = rec.calls
+        obs["schedule"] = rec.schedule(parser)
     except Exception as ex:  # noqa: BLE001
         fails.append("exception: %s: %s" % (type(ex).__name__, str(ex)[:200]))
     log = list(mod.LOG)
@@ -643,6 +677,33 @@ def declaration_orders(sc, rng, cap):
                 yield {"comps": pc, "links": pl}
 
 
+FLAT_NAMES = ["a", "ab", "a_b", "b"]
+
+
+def flat_scenario(n, mask, kinds_shift=0):
+    """the labelled digraph `mask` on n flat components (bit i*n+j = link from component i into component j) as a scenario;
+    component kinds and link kinds vary deterministically with the mask"""
+    comps = [{"name": FLAT_NAMES[i], "kind": FLAT_KINDS[(i + mask + kinds_shift) % 3], "cls": i} for i in range(n)]
+    links, used = [], [0] * n
+    for i in range(n):
+        for j in range(n):
+            if mask >> (i * n + j) & 1:
+                style = (i * 5 + j * 3 + mask) % 4
+                links.append({"sources": [[FLAT_NAMES[i], [None, "at", None, "bt"][style]]], "target": [FLAT_NAMES[j], "p%d" % used[j]],
+                              "fn": [None, None, "f1", "f2"][style]})
+                used[j] += 1
+    return {"comps": comps, "links": links}
+
+
+def exhaustive_flat(n, loops):
+    """every labelled digraph with at least one link on n flat components: yields (scenario, is_cyclic)"""
+    for mask in range(1, 1 << (n * n)):
+        if not loops and any(mask >> (i * n + i) & 1 for i in range(n)):
+            continue
+        sc = flat_scenario(n, mask)
+        yield sc, first_cycle_index(sc) is not None
+
+
 def gen_cyclic(rng, base):
     """an acyclic scenario plus one link that closes a cycle among the objects, inserted at a random declaration position"""
     sc = {"comps": base["comps"], "links": [dict(l) for l in base["links"]]}
@@ -696,6 +757,91 @@ def real_inst_order(parser):
     except ValueError as ex:
         m = CYCLE_RE.search(str(ex))
         return {"cycle": [m.group(1), m.group(2)]} if m else {"other": str(ex)[:80]}
+
+
+def fake_parser(links):
+    """the only things instantiation_order reads from a parser: _links_group._group_actions[*].apply_on/.target/.source"""
+    acts = [types.SimpleNamespace(apply_on="instantiate", target=(l["target"], None),
+                                  source=[(s, types.SimpleNamespace(dest=s)) for s in l["sources"]]) for l in links]
+    return types.SimpleNamespace(_links_group=types.SimpleNamespace(_group_actions=acts))
+
+
+# link target keys on up to four nesting levels below one group / one subclass argument, plus unrelated ones
+TARGET_POOLS = [
+    ["root.r", "root.child.init_args.p", "root.child.init_args.grandchild.init_args.g",
+     "root.child.init_args.grandchild.init_args.sub.init_args.z", "other.q", "root.child2.init_args.p"],
+    ["x.init_args.r", "x.init_args.child.init_args.p", "x.init_args.child.init_args.grandchild.init_args.g",
+     "x.init_args.child.init_args.q", "y.init_args.p0", "x.init_args.childinit_args.w"],
+]
+PURE_SOURCES = ["s0", "s1", "s2", "s3"]
+
+
+def pure_link_sets(thorough):
+    """link lists (pure inputs of instantiation_order): every subset of <= 4 (thorough: <= 5) targets of a pool, three source
+    assignments, EVERY declaration order"""
+    kmax = 5 if thorough else 4
+    for pool in TARGET_POOLS:
+        for k in range(1, kmax + 1):
+            for combo in itertools.combinations(pool, k):
+                variants = [
+                    [{"sources": [PURE_SOURCES[i % 4]], "target": t} for i, t in enumerate(combo)],      # distinct sources
+                    [{"sources": ["s0"], "target": t} for t in combo],                                     # one common source
+                    [{"sources": [PURE_SOURCES[i % 4], PURE_SOURCES[(i + 1) % 4]], "target": t} for i, t in enumerate(combo)],
+                ]
+                if k > 4:
+                    variants = variants[:1]
+                for links in variants:
+                    for perm in itertools.permutations(links):
+                        yield list(perm)
+
+
+def correspond_pure_inst_order(ctx, state):
+    """correspondence c': real ActionLink.instantiation_order on stub parsers vs model, multi-level shared-prefix targets"""
+    cases = list(pure_link_sets(ctx.thorough))
+    lines, reals = [], []
+    for links in cases:
+        targets = set()
+        for l in links:
+            targets.add(py_target_node(l["target"]))  # same insertion sequence as the code => same iteration order
+        lines.append({"op": "inst_order", "links": links, "set_order": list(targets)})
+        reals.append(real_inst_order(fake_parser(links)))
+    model = driver(ctx, lines, "instantiation_order (pure)")
+    ctx.extra["pure_instantiation_order_cases"] = len(cases)
+    if model is None:
+        return
+    for links, real, m in zip(cases, reals, model):
+        ctx.count()
+        levels = len({py_target_node(l["target"]).count(".") for l in links})
+        ctx.hist("pure_inst_order_target_levels", levels)
+        if levels >= 2:
+            ctx.nontrivial("P" + json.dumps(links, sort_keys=True))
+        got = {k: v for k, v in m.items() if k in ("ok", "cycle")}
+        if got != real:
+            state["inst_disagreements"] += 1
+            if state["inst_disagreements"] <= 3:
+                ctx.tie_break("correspondence E5 (ActionLink.instantiation_order vs model, multi-level targets) disagrees",
+                              json.dumps({"links": links, "real": real, "model": m})[:1800])
+
+
+def three_level_scenarios():
+    """deterministic family: links from distinct (and shared) sources into ALL THREE nesting levels of one deep component,
+    every declaration order of the links"""
+    styles = [
+        [("at", None), ("at", None), ("at", None)],
+        [(None, None), ("bt", "f1"), (None, "f2")],
+    ]
+    for kind in DEEP_KINDS:
+        for si, style in enumerate(styles):
+            comps = [{"name": "a", "kind": FLAT_KINDS[si % 3], "cls": 0}, {"name": "ab", "kind": FLAT_KINDS[(si + 1) % 3], "cls": 1},
+                     {"name": "c", "kind": "group", "cls": 2}, {"name": "root", "kind": kind, "cls": 3}]
+            tg = [["root/child/grandchild", "g"], ["root/child", "p"], ["root", "r"]]
+            links = [{"sources": [[["a", "ab", "c"][i], style[i][0]]], "target": tg[i], "fn": style[i][1]} for i in range(3)]
+            for pl in itertools.permutations(links):
+                yield {"comps": comps, "links": list(pl)}
+            # two links into the deepest level and one into each other level, sources shared
+            links4 = links + [{"sources": [["c", None], ["a", "at"]], "target": ["root/child/grandchild", "h"], "fn": "f1"}]
+            for pl in itertools.permutations(links4):
+                yield {"comps": comps[::-1], "links": list(pl)}
 
 
 # ---------------------------------------------------------------------------------------------
@@ -842,9 +988,9 @@ def shrink_scenario(sc, cyclic):
 
 
 def correspond_parsers(ctx, items, state):
-    """correspondence c: items = [(scenario, parser, reorder_calls)]"""
+    """correspondence c: items = [(scenario, parser, reorder_calls, schedule or None)]"""
     lines, meta = [], []
-    for sc, parser, calls in items:
+    for sc, parser, calls, sched in items:
         links, set_order = model_links_of(parser)
         real = real_inst_order(parser)
         lines.append({"op": "inst_order", "links": links, "set_order": set_order})
@@ -855,7 +1001,7 @@ def correspond_parsers(ctx, items, state):
         if calls:
             c0 = calls[0]
             lines.append({"op": "components", "links": links, "set_order": set_order, "dests": c0["dests"]})
-            meta.append(("comps", sc, c0, None))
+            meta.append(("comps", sc, c0, sched))
     model = driver(ctx, lines, "instantiation_order")
     if model is None:
         return
@@ -882,6 +1028,11 @@ def correspond_parsers(ctx, items, state):
                 if state["inst_disagreements"] <= 3:
                     ctx.tie_break("correspondence E5 (component order of instantiate_classes vs model) disagrees",
                                   json.dumps({"scenario": sc, "real": real, "model": m})[:1800])
+            elif extra is not None and m.get("schedule") != extra:
+                state["inst_disagreements"] += 1
+                if state["inst_disagreements"] <= 3:
+                    ctx.tie_break("correspondence E5 (links applied per component by apply_instantiation_links vs model schedule) disagrees",
+                                  json.dumps({"scenario": sc, "real": extra, "model": m.get("schedule")})[:1800])
 
 
 def run_e2e(ctx, state, n_shapes, cap, n_cyclic, corpus_scenarios):
@@ -913,12 +1064,36 @@ def run_e2e(ctx, state, n_shapes, cap, n_cyclic, corpus_scenarios):
             if len(sc["links"]) >= 2:
                 ctx.nontrivial(key)
             if "parser" in obs and len(items) < state["max_parser_corr"]:
-                items.append((sc, obs["parser"], obs.get("reorder_calls")))
+                items.append((sc, obs["parser"], obs.get("reorder_calls"), obs.get("schedule") if not fails else None))
         classify_e2e(ctx, sc, fails, cyclic, state, origin)
 
     for c in corpus_scenarios:
-        for sc in declaration_orders(c["scenario"], ctx.rng, 48):
+        base = c["scenario"]
+        if len(base["links"]) <= 4:  # every declaration order of the links with the components as given (deterministic) ...
+            for pl in itertools.permutations(base["links"]):
+                one({"comps": base["comps"], "links": list(pl)}, bool(c.get("cyclic")), "corpus")
+        for sc in declaration_orders(base, ctx.rng, 48):  # ... and component orders too (all when <= 48, else a sample)
             one(sc, bool(c.get("cyclic")), "corpus")
+    n3 = 0
+    for sc in three_level_scenarios():
+        one(sc, False, "three-level")
+        n3 += 1
+    ctx.extra["three_level_target_scenarios"] = n3
+    # every link graph on few flat components (deterministic floor, independent of the seed)
+    n_ex = {"acyclic": 0, "cyclic": 0}
+    plan = [(3, False, 6, 24)] if not ctx.thorough else [(3, False, 36, 24), (2, True, 24, 24), (4, False, 6, 4)]
+    if not ctx.thorough:
+        plan.append((2, True, 24, 24))
+    for n, loops, cap_a, cap_c in plan:
+        for sc0, cyc in exhaustive_flat(n, loops):
+            if cyc and n == 4 and ctx.rng.random() < 0.8:
+                continue  # 4 components: every DAG, a fifth of the cyclic digraphs
+            orders = declaration_orders(sc0, ctx.rng, cap_c if cyc else cap_a) if (ctx.thorough or cyc) else \
+                ({"comps": sc0["comps"], "links": list(pl)} for pl in itertools.permutations(sc0["links"]))
+            for sc in orders:
+                one(sc, cyc, "exhaustive")
+            n_ex["cyclic" if cyc else "acyclic"] += 1
+    ctx.extra["exhaustive_flat_link_graphs"] = dict(n_ex, plan=[{"components": n, "self_links": l} for n, l, _, _ in plan])
     shapes = []
     for _ in range(n_shapes):
         base = gen_shape(ctx.rng)
@@ -938,6 +1113,7 @@ def run_e2e(ctx, state, n_shapes, cap, n_cyclic, corpus_scenarios):
     for sc in shapes[:2]:
         ctx.sample({"e2e": {"comps": sc["comps"], "links": [[[source_key(sc, s) for s in l["sources"]], target_key(sc, l["target"]), l.get("fn")] for l in sc["links"]]}})
     correspond_parsers(ctx, items, state)
+    correspond_pure_inst_order(ctx, state)
 
 
 def run(ctx: Ctx):
@@ -1029,7 +1205,7 @@ def run(ctx: Ctx):
 
     # ---- c + ii + iii. real parsers -----------------------------------------------------------
     e2e_corpus = [c for c in corpus if c.get("kind") == "e2e"]
-    run_e2e(ctx, state, n_shapes=ctx.budget(60, 700) * boost, cap=ctx.budget(24, 48), n_cyclic=ctx.budget(60, 700) * boost, corpus_scenarios=e2e_corpus)
+    run_e2e(ctx, state, n_shapes=ctx.budget(48, 420) * boost, cap=ctx.budget(24, 24), n_cyclic=ctx.budget(48, 420) * boost, corpus_scenarios=e2e_corpus)
 
     # ---- replay of catalogued findings ----------------------------------------------------------
     for f in ctx.open_findings():
